@@ -169,22 +169,13 @@ example : (2 : Nat) ≤ 7 ∧ 7 < 1000 := by omega
 section rename
 variable {α κ : Type} [DecidableEq α] [LT α] [DecidableLT α] [DecidableEq κ] [LT κ] [DecidableLT κ]
 
-/-- FULL (`standard_topology_keeps_id`): for every chain `c` of a named binary tree and either flag,
-`topology_id(standard_topology(c)) = topology_id(c)` (the hypothesis `hpres` of `chainsMap_classes_partition`).
-
-◐ Proved here, for EVERY named binary tree `a → l r` with pairwise different vertices, EVERY chain `c` that consists
-of its decays (any order), EVERY key (name / particle) and EVERY particle map `f` that is injective on the vertices
-and fixes the final particles: the chain `[BaseDecay(f[core], [f[j] for j in outs]) for decay in c]` — the last loop of
-`standard_topology` — has the same `topology_id` as `c`, and that id exists.
-Missing for the FULL statement on the model function `standardTopology` (particles = `Pt`, names = `String`):
-(i) the bookkeeping of the three `name_map` loops (`pm.get? x = some (f x)` for every particle of the chain, with
-`f x = Pt.parse (name_map x)`) together with the String round trip `Pt.parse (Pt.repr p) = p` for top and finals
-(`String.splitOn` / `toInt?`, which the kernel cannot evaluate and core Lean has no lemmas for);
-(ii) that the generated names "(B, C)" of different inner vertices parse to different particles, none of them a
-final or top (String formatting; FALSE for final names that contain ", " or parentheses — the harness never uses
-such names). Both are validated by the exact correspondence of `std` / `tid` on every seeded group and on the
-hand-built 7–9 final trees, and by the search oracle `standard_topology:changes-id`. -/
-theorem standard_topology_keeps_id_partial (hα : LinLt α) (hκ : LinLt κ) (key : α → κ) {c : Chain α} {a : α}
+/-- ★ (renaming step; the FULL statement `standard_topology_keeps_id` — that the model's `standard_topology` IS such a
+renaming, with the name layer made explicit — is in Props/C14d.lean.)  For EVERY named binary tree `a → l r` with
+pairwise different vertices, EVERY chain `c` that consists of its decays (any order), EVERY key (name / particle) and
+EVERY particle map `f` that is injective on the vertices and fixes the final particles: the chain
+`[BaseDecay(f[core], [f[j] for j in outs]) for decay in c]` — the last loop of `standard_topology` — has the same
+`topology_id` as `c`, and that id exists. -/
+theorem renaming_keeps_topology_id (hα : LinLt α) (hκ : LinLt κ) (key : α → κ) {c : Chain α} {a : α}
     {l r : NT α} (hc : Rep c (NT.node a l r)) (hv : (NT.node a l r).verts.Nodup) (f : α → α)
     (hinj : ∀ x ∈ (NT.node a l r).verts, ∀ y ∈ (NT.node a l r).verts, f x = f y → x = y)
     (hfix : ∀ z ∈ (NT.node a l r).leaves, f z = z) :
@@ -205,24 +196,15 @@ example :
 section tmap
 variable {α : Type} [DecidableEq α] [LT α] [DecidableLT α]
 
-/-- FULL (`topology_map_is_morphism`): for two chains `a`, `b` with equal `topology_id`, `topology_map a b` is a
-bijection of the particles of `a` onto those of `b` that fixes the finals and maps every decay core → outs of `a`
-to a decay of `b`.
-
-◐ Proved here for EVERY named binary tree `a → l r` with pairwise different vertices, EVERY chain `c` consisting of
-its decays, EVERY particle map `f` injective on the vertices and fixing the finals, and EVERY chain `c2` consisting
-of the decays of the renamed tree (any order of decays and daughters in both): `topology_map(c, c2)` returns
-(no KeyError); its particle part is defined exactly on the vertices and sends `x` to `f x` — hence it is injective,
-onto the particles of `c2`, and fixes every final; its decay part lists every decay of `c`, in order, paired with a
-decay of `c2` whose mother is `f core` and whose daughters are the images of the daughters (up to daughter order,
-`BaseDecay.__eq__`). This covers `topology_map()` against `standard_topology()` and the maps of `get_chains_map`
-whenever the two chains are renamed copies.
-Missing for the FULL statement: that two chains with equal `topology_id(identical=False)` ARE renamed copies of
-each other (construction of `f` from the equality of the grouping multisets of two different trees); for
-`identical=True` ids the statement is false as it stands (chains equal up to a permutation of identical particles
-have equal ids, and the map then matches by (name, id)). Validated by the search oracle
-`topology_map:not-a-morphism` and the exact correspondence of the returned map. -/
-theorem topology_map_is_morphism_partial (hα : LinLt α) {c c2 : Chain α} {a : α} {l r : NT α}
+/-- ★ (renamed copies; the FULL statement `topology_map_is_morphism` — equal `topology_id(identical=False)` makes two
+chains renamed copies — is in Props/C14d.lean.)  For EVERY named binary tree `a → l r` with pairwise different
+vertices, EVERY chain `c` consisting of its decays, EVERY particle map `f` injective on the vertices and fixing the
+finals, and EVERY chain `c2` consisting of the decays of the renamed tree (any order of decays and daughters in both):
+`topology_map(c, c2)` returns (no KeyError); its particle part is defined exactly on the vertices and sends `x` to
+`f x` — hence it is injective, onto the particles of `c2`, and fixes every final; its decay part lists every decay of
+`c`, in order, paired with a decay of `c2` whose mother is `f core` and whose daughters are the images of the daughters
+(up to daughter order, `BaseDecay.__eq__`). -/
+theorem topology_map_of_renamed_copy (hα : LinLt α) {c c2 : Chain α} {a : α} {l r : NT α}
     (hc : Rep c (NT.node a l r)) (hv : (NT.node a l r).verts.Nodup) (f : α → α)
     (hinj : ∀ x ∈ (NT.node a l r).verts, ∀ y ∈ (NT.node a l r).verts, f x = f y → x = y)
     (hfix : ∀ z ∈ (NT.node a l r).leaves, f z = z) (hc2 : Rep c2 ((NT.node a l r).mapN f)) :
